@@ -217,7 +217,7 @@ Fifth round (changes 12-14; the sub-agents were told the titles of the eleven ea
 | C20-14 | silent | C20: one case in six uses \\r\\n line endings |
 
 Sixth round (changes 15-16, two per property; the authors had the titles of all fourteen earlier ones). Two of
-the 40 are not stored: C02-16 and C12-15 stopped being observable through their demonstrations once the
+the 40 were not stored (and a third, C16-15, was withdrawn later): C02-16 and C12-15 stopped being observable through their demonstrations once the
 defects their authors had stumbled over were repaired in /repo (F53: inside a method the receiver lost its
 declared type; the repair moved the code C12-15 had changed out of the script's path, and made C02-16's fast
 path equivalent to the ordinary one). Because the authors' summaries arrive before their changes can be run,
@@ -252,14 +252,44 @@ C12-16, C13-16, C17-16. Missed at first (21 stored + 5 pre-empted of 38 stored):
 | C19-16 | silent | C19: natives registered under package-level names that are also predeclared (print, println) |
 | C04-15, C06-15, C06-16, C20-15, C20-16 | (pre-empted, see above) | |
 
-Two more defects of the unchanged tree came out of this round: F53 and F54 (an any-typed operand holding a
+C16-15 (stored at first) was withdrawn later: repair F59 (round 7) made it unobservable.
+
+Seventh round (changes 17-18 for ten properties: C02, C07, C09, C11, C12, C15, C16, C17, C18, C19; the authors were
+also asked to list what the unchanged tree gets wrong and not to build demonstrations on it; nothing was widened
+before the first run). C18-18 is not stored: the defect it exploited (a result-less function type at the very end
+of an input is a parse error) was repaired as F59, after which the change is harmless. Caught outright: C02-18,
+C11-18, C18-17. Missed at first (16 of 19 stored):
+
+| change | first result | what was added |
+|---|---|---|
+| C02-17 | silent | C02: concatenations of string literals next to literals spelled like their value |
+| C07-17 | silent | C07 snippet: a sort whose comparator sorts |
+| C07-18 | silent | generator and C07 snippet: the comma-ok map lookup written as a var declaration |
+| C09-17 | silent | C09: f(nil...) |
+| C09-18 | silent | C09: package variables of function type reassigned between two runs of one call site |
+| C11-17 | silent | C11: the bytes of a string spread into append (non-ASCII, invalid UTF-8), also through a sub-slice |
+| C12-17 | silent | C12 package family: file names ending in test.go that are not test files (latest.go, contest.go) |
+| C12-18 | silent | C12: a method with a variadic tail that stores into a field, called through locals with 0, 1, several and spread arguments |
+| C15-17 | silent | C15: every third cyclic graph also imports more stock packages than it has script packages |
+| C15-18 | silent | C15: in Eval mode the same VM evaluated the import once before against an empty tree |
+| C16-17 | silent | C16: one hoistable uses a script sub-package, so whichever file holds it imports that package |
+| C16-18 | silent | C16: local constants (in a function and in a method) named like package-level constants used by other functions |
+| C17-17 | silent | C17: a function literal inside a function at the same position in every version, its body carrying the version tag |
+| C17-18 | silent | C17: an initialiser above the function it calls; the package also loaded by the name of its file |
+| C19-17 | silent | C19: natives without parameters as the first thing a fresh VM runs |
+| C19-18 | silent | C19: a slice handed to Call / Func as the only surplus parameter of a variadic function |
+
+The lists of unchanged-tree observations led to repairs F56-F59 and to the recorded findings K09-K11 (DESIGN 10.4
+also lists the observations that were not followed up).
+
+Two more defects of the unchanged tree came out of the sixth round: F53 and F54 (an any-typed operand holding a
 scalar compared with nil), both first noticed by sub-agents while writing their demonstrations.
 
 A reverse-of-fix mutant of F52 (blank parameters) was also found to be reported by C01 only; C09's
 generated callees now spell unused parameters _ now and then.
 
 While these inputs were added, the strengthened checks met more genuine defects of the pinned tree
-(F44-F55 and K05-K08 in known_findings.json), among them two the C03 sub-agent had noticed on the
+(F44-F59 and K05-K11 in known_findings.json), among them two the C03 sub-agent had noticed on the
 unchanged tree while looking for places to plant its changes.
 """)
 print(open('/verif/seeded/RESULTS.md').read())
